@@ -1,0 +1,17 @@
+//go:build !verif
+// +build !verif
+
+package model
+
+type VerifEvent struct {
+	Kind     string
+	Index    int
+	Fired    bool
+	DM       *DecisionMaker
+	Original *DecisionMakingParams
+	Before   *DecisionMakingParams
+	After    *DecisionMakingParams
+	Report   interface{}
+}
+
+func verifStep(VerifEvent) {}
